@@ -148,7 +148,9 @@ def generate(rng, index, cfg):
         c = rng.random()
         q["consume"] = "all" if c < 0.7 else ({"close_after": rng.randint(0, 2)} if c < 0.85 else {"raise_after": rng.randint(0, 2)})
         q["fault"] = None
-        if swarm["faults"] and rng.random() < 0.5:
+        if swarm["faults"] and swarm["clean_filter"] and q["ref_b"] == "WORKING" and rng.random() < 0.35:
+            q["fault"] = {"kind": "filter_fail", "nth_filter": rng.choice([0, 0, 1, 2])}
+        elif swarm["faults"] and rng.random() < 0.5:
             q["fault"] = rng.choice([{"kind": "vanish", "nth_open": rng.randint(0, 1)}, {"kind": "vanish", "nth_open": 0},
                                      {"kind": "spawn_fail", "nth_spawn": rng.randint(0, 4),
                                       "errno": rng.choice(["ENOMEM", "EAGAIN", "EMFILE"])}])
@@ -268,11 +270,29 @@ class _SpawnFault:
         self.count = 0
         self.plan = None
         self.fired = 0
+        self.filter_cmd = None
+        self.filters_seen = 0
+        self.fired_filter = 0
+        self.filter_failed = []     # real paths of the files whose filter run was made to fail
 
     def __call__(self, *a, **kw):
+        if kw.get("shell") and a and isinstance(a[0], str) and a[0] == self.filter_cmd:
+            # the clean filter of a working-tree notebook
+            k = self.filters_seen
+            self.filters_seen += 1
+            if self.plan is not None and self.plan.get("kind") == "filter_fail" and self.plan["nth_filter"] == k:
+                name = getattr(kw.get("stdin"), "name", None)
+                if isinstance(name, str):
+                    cand = [os.path.abspath(name)] + ([os.path.join(kw["cwd"], name)] if kw.get("cwd") else [])
+                    self.filter_failed.extend(os.path.realpath(c) for c in cand)
+                self.fired_filter += 1
+                self.log.ev("fault", kind="filter_fail", n=k)
+                # the filter dies half-way: some output, a message, a non-zero status
+                return _real_popen("head -c 40; echo 'clean filter crashed'; exit 3", *a[1:], **kw)
+            return _real_popen(*a, **kw)
         n = self.count
         self.count += 1
-        if self.plan is not None and self.plan["nth_spawn"] == n:
+        if self.plan is not None and self.plan.get("kind", "spawn_fail") == "spawn_fail" and self.plan["nth_spawn"] == n:
             self.fired += 1
             self.log.ev("fault", kind="spawn_fail", n=n, errno=self.plan["errno"])
             raise OSError(getattr(errno, self.plan["errno"]), os.strerror(getattr(errno, self.plan["errno"])))
@@ -610,7 +630,8 @@ class Runner:
         spawn = _SpawnFault(self.log)
         opener = _OpenFault(self.log, w.work)
         fault = q.get("fault")
-        if fault and fault["kind"] == "spawn_fail":
+        spawn.filter_cmd = self.clean_filter
+        if fault and fault["kind"] in ("spawn_fail", "filter_fail"):
             spawn.plan = fault
         if fault and fault["kind"] == "vanish":
             opener.plan = fault
@@ -694,11 +715,13 @@ class Runner:
             self.stat("fault_fired_spawn_fail", spawn.fired)
         if opener.fired:
             self.stat("fault_fired_vanish", len(opener.fired))
+        if spawn.fired_filter:
+            self.stat("fault_fired_filter_fail", spawn.fired_filter)
         self.stat("outcome_" + outcome.split(":")[0])
         self.log.ev("query", q={k: v for k, v in q.items() if k != "op"}, outcome=outcome, n=len(yielded),
                     names=[[y[0], y[1]] for y in yielded], post=os.path.relpath(post, w.work))
 
-        faulted = bool(spawn.fired or opener.fired)
+        faulted = bool(spawn.fired or opener.fired or spawn.fired_filter)
         # G4: cwd afterwards == before, after every outcome
         if post != pre:
             self.violate("G4", sig_base, "cwd before query %r, after %r (outcome %s, %d pairs)" % (
@@ -802,7 +825,14 @@ class Runner:
             if bn in vanished or an in vanished:
                 continue
             for side, name, text, ref in (("a", an, at, q["ref_a"]), ("b", bn, bt, q["ref_b"])):
-                want = _side_content(w, ref, name, self.clean_filter)
+                flt = self.clean_filter
+                if ref == "WORKING" and name and os.path.realpath(os.path.join(w.work, name)) in spawn.filter_failed:
+                    # this file's clean filter was made to crash.  nbdime may give up (handled above); if it goes on,
+                    # the only content it can stand behind is the file itself - what git uses when a filter that is
+                    # not `required` fails - never the crashed filter's partial output
+                    flt = None
+                    self.stat("probe_pair_after_failed_filter_checked")
+                want = _side_content(w, ref, name, flt)
                 if _parse(text) != _parse(want):
                     self.violate("G2", dict(sig_base, side=side),
                                  "side %s of pair (%r, %r): nbdime's content differs from what git holds at %s" % (side, an, bn, ref))
